@@ -211,7 +211,24 @@ pub fn check_resend(c: &ResendCase, st: &mut Stats) -> Result<(), String> {
     if c.if_needed_before_resend || c.intruder % 4 == 3 {
         catch(|| first.configure_if_needed()).map_err(|p| format!("configure_if_needed panicked: {p}"))?.map_err(|e| format!("configure_if_needed failed: {e}"))?;
     }
-    send(&first, "second send of the same list", &list)?;
+    if c.intruder % 2 == 0 {
+        // the caller's page iterator looks at the sign between pages (progress display, lazily rendered pages): what the
+        // caller does while the controller pulls the next page must not disturb the transfer
+        let looked = std::cell::Cell::new(0usize);
+        let style = catch(|| {
+            first.send_pages(list.iter().inspect(|_| {
+                looked.set(looked.get() + 1);
+                let _ = bus.borrow().sign(0).state();
+            }))
+        })
+        .map_err(|p| format!("second send (page iterator that looks at the sign between pages): send_pages panicked: {p}"))?
+        .map_err(|e| format!("second send (page iterator that looks at the sign between pages): send_pages failed: {e}"))?;
+        if style != flip {
+            return Err(format!("second send: send_pages reported {style:?} for a {flip:?} sign"));
+        }
+    } else {
+        send(&first, "second send of the same list", &list)?;
+    }
     st.eval();
     holds("second send of the same list through the same controller object", &list)?;
     let want_state = if c.automatic { State::ShowingPages } else { State::PageLoaded };
